@@ -168,7 +168,7 @@ func verifC04Step(cfg vStoreCfg, symbolicIds bool) {
 	if verifrt.Tier() == 1 && !symbolicIds {
 		nEmp = 3
 	}
-	deptIds := []string{"x", "y"}
+	deptIds := []string{"x", "xy"}
 	if symbolicIds {
 		maxLen := 2
 		if verifrt.Tier() == 1 {
@@ -299,12 +299,88 @@ func VerifC04_AnyIdFkIndexCascade()       { verifC04Step(vStoreCfg{fk: vFkIndexC
 func VerifC04_AnyIdFkConstraintRestrict() { verifC04Step(vStoreCfg{fk: vFkConstraintRestrict}, true) }
 func VerifC04_AnyIdFkConstraintCascade()  { verifC04Step(vStoreCfg{fk: vFkConstraintCascade}, true) }
 
+// verifC04CascadeInWritingTx: the cascade runs inside a transaction that has
+// already written to the referrers' store (so bbolt iterates live nodes, where
+// a delete under a cursor shifts the rows after it): four adjacent referrers,
+// each referencing x or xy (or nothing, where allowed); one transaction creates
+// a fifth emp and then deletes x. Exactly the referrers of x go with it.
+func verifC04CascadeInWritingTx(cfg vStoreCfg) {
+	cfg.fkToDept = true
+	cfg.nickNullable = true
+	env := verifNewEnv(cfg)
+	defer env.close()
+	deptIds := []string{"x", "xy"}
+	env.createDepts(deptIds...)
+	ids := []string{"a", "ab", "b", "c"}
+	boss := make([]int, len(ids))
+	for i, id := range ids {
+		n := 2
+		if cfg.fkNullable() {
+			n = 3
+		}
+		boss[i] = verifrt.Choose("boss", n)
+		var bp *string
+		if boss[i] < 2 {
+			s := deptIds[boss[i]]
+			bp = &s
+		}
+		err := env.update(func(ctx MutateContext) error { return env.emp.Create(ctx, verifEmpFor(id, bp, cfg)) })
+		verifrt.Assert(err == nil, "C04 cascade population setup succeeds")
+	}
+	first := verifrt.Choose("first", 3)
+	xy := "xy"
+	err := env.update(func(ctx MutateContext) error {
+		var err error
+		switch first {
+		case 0: // a new referrer of the other dept, sorted before the others
+			err = env.emp.Create(ctx, verifEmpFor("0", &xy, cfg))
+		case 1: // a new emp sorted after the others
+			err = env.emp.Create(ctx, verifEmpFor("d", &xy, cfg))
+		case 2: // an update of an existing referrer that leaves its reference alone
+			var bp *string
+			if boss[1] < 2 {
+				s := deptIds[boss[1]]
+				bp = &s
+			}
+			err = env.emp.Update(ctx, verifEmpFor(ids[1], bp, cfg), nil)
+		}
+		if err != nil {
+			return err
+		}
+		return env.dept.DeleteById(ctx, "x")
+	})
+	verifrt.Assert(err == nil, "C04 cascading delete inside a writing transaction succeeds")
+	env.view(func(tx *bbolt.Tx) {
+		_, found, _ := env.dept.FindById(tx, "x")
+		verifrt.Assert(!found, "C04 the deleted target is gone")
+		_, found, _ = env.dept.FindById(tx, "xy")
+		verifrt.Assert(found, "C04 the other target stays")
+		for i, id := range ids {
+			ent, found, err := env.emp.FindById(tx, id)
+			verifrt.Assert(err == nil && found == (boss[i] != 0), "C04 cascade deletes exactly the referrers of the deleted target (transaction with earlier writes)")
+			if found && boss[i] == 1 {
+				verifrt.Assert(ent.Boss != nil && *ent.Boss == "xy", "C04 surviving referrers keep their reference")
+			}
+		}
+		// "x" occurs in no key or value any more ("xy" is a different id: whole
+		// keys / values are compared)
+		verifrt.Assert(!verifScanForId(tx, "x"), "C06 after a cascading delete the target's id occurs nowhere (no dangling reference values)")
+		if first == 0 || first == 1 {
+			_, found, _ := env.emp.FindById(tx, []string{"0", "d"}[first])
+			verifrt.Assert(found, "C04 the emp created earlier in the transaction stays")
+		}
+	})
+}
+
+func VerifC04_FkIndexCascadeInWritingTx()      { verifC04CascadeInWritingTx(vStoreCfg{fk: vFkIndexCascade}) }
+func VerifC04_FkConstraintCascadeInWritingTx() { verifC04CascadeInWritingTx(vStoreCfg{fk: vFkConstraintCascade}) }
+
 func init() {
 	ast.VerifTemplates = append(ast.VerifTemplates, vFBoss+` = "__VERIF_LIT__"`)
 	verifQueryFamilies = append(verifQueryFamilies, func() []string {
 		// the filters the cascade / restrict constraint builds for the fixed ids
 		var qs []string
-		for _, id := range []string{"x", "y", "z", "a", "b", "c"} {
+		for _, id := range []string{"x", "y", "xy", "z", "a", "b", "c"} {
 			qs = append(qs, vFBoss+` = "`+id+`"`)
 		}
 		return qs
